@@ -68,15 +68,16 @@ type printer struct {
 	fset *token.FileSet
 
 	// Current state
-	output       []byte       // raw printer result
-	indent       int          // current indentation
-	level        int          // level == 0: outside composite literal; level > 0: inside composite literal
-	mode         pmode        // current printer mode
-	endAlignment bool         // if set, terminate alignment immediately
-	impliedSemi  bool         // if set, a linebreak implies a semicolon
-	lastTok      token.Token  // last token printed (token.ILLEGAL if it's whitespace)
-	prevOpen     token.Token  // previous non-brace "open" token (, [, or token.ILLEGAL
-	wsbuf        []whiteSpace // delayed white space
+	output         []byte       // raw printer result
+	indent         int          // current indentation
+	level          int          // level == 0: outside composite literal; level > 0: inside composite literal
+	mode           pmode        // current printer mode
+	endAlignment   bool         // if set, terminate alignment immediately
+	impliedSemi    bool         // if set, a linebreak implies a semicolon
+	lastTok        token.Token  // last token printed (token.ILLEGAL if it's whitespace)
+	writingComment bool         // set while the text of a comment is being written
+	prevOpen       token.Token  // previous non-brace "open" token (, [, or token.ILLEGAL
+	wsbuf          []whiteSpace // delayed white space
 
 	// Positions
 	// The out position differs from the pos position when the result
@@ -318,7 +319,7 @@ func (p *printer) writeString(pos token.Position, s string, isLit bool) {
 		// tabwriter.Escape bytes since they do not appear in legal
 		// UTF-8 sequences.
 		p.output = append(p.output, tabwriter.Escape)
-		if len(s) > 0 && s[0] == '"' { // the literal itself, not a comment flushed before it
+		if len(s) > 0 && s[0] == '"' && !p.writingComment { // the literal itself, not a comment flushed before it
 			switch p.lastTok {
 			case token.CSTRING:
 				p.output = append(p.output, 'c')
@@ -657,6 +658,9 @@ func stripCommonPrefix(lines []string) {
 }
 
 func (p *printer) writeComment(comment *ast.Comment) {
+	// the text of a comment is written as it is (a line of it may start with a double quote)
+	defer func(in bool) { p.writingComment = in }(p.writingComment)
+	p.writingComment = true
 	text := comment.Text
 	pos := p.posFor(comment.Pos())
 
